@@ -193,6 +193,12 @@ impl PutQuery {
     }
 
     fn most_common_error(&self) -> Option<(usize, PutError)> {
+        // 301 and 302 only mean something for mutable items, callers of other
+        // puts do not expect (and can not handle) a concurrency error.
+        if !matches!(self.request, PutRequestSpecific::PutMutable(_)) {
+            return None;
+        }
+
         self.errors
             .first()
             .and_then(|(count, error)| match error.code {
